@@ -106,7 +106,8 @@ class wait_poll_loop:
     @staticmethod
     def inv(L):
         age = clock_now() - L.self._start_time
-        return both(0 <= age, age * 1000 <= ms(L.self._timeout_in_seconds) + POLL_MS + J_MS, len(G.handled) == 0)
+        return both(0 <= age, age * 1000 <= ms(L.self._timeout_in_seconds) + POLL_MS + J_MS, len(G.handled) == 0,
+                    L.self._start_time == G.t_build)      # the timeout clock runs from the build of the request, whatever arrives
 
 
 @harness(prop="C06", target="geckolib.driver.udp_protocol_handler:GeckoUdpProtocolHandler.wait_for_response",
@@ -120,6 +121,8 @@ async def wait_returns_true_only_for_a_delivered_reply(seq: int):
     G.handled = []
     h = Hnd(content=b"AVERS" + bytes([seq]), timeout=GeckoConfig.PROTOCOL_TIMEOUT_IN_SECONDS, parms=SENDER)
     t_start = clock_now()
+    G.t_build = h._start_time
+    ensures("timeout-clock-starts-at-build", G.t_build == t_start)
     proto = MonQueueProto(q)
     r = await h.wait_for_response(proto)
     elapsed = clock_now() - t_start
